@@ -23,6 +23,7 @@ extern "C" void frg_verif_point(const char *, const void *, unsigned long) {
 struct Val {
 	uint64_t key, version, check; // plain
 	Val(uint64_t k, uint64_t v) : key(k), version(v), check(mix(k, v)) {}
+	~Val() { check = 0xDEADDEADDEADDEADull; key = ~key; } // the end of the value's lifetime is observable: plain stores (a reader that can still reach the value races with them / sees a value that is not intact)
 };
 struct JunkAlloc {
 	void *allocate(size_t n) { void *p = malloc(n); memset(p, 0xCD, n); return p; }
